@@ -221,7 +221,9 @@ func (l *OpenFgaDslListener) ExitConditionParameter(ctx *parser.ConditionParamet
 }
 
 func (l *OpenFgaDslListener) ExitConditionExpression(ctx *parser.ConditionExpressionContext) {
-	l.currentCondition.Expression = strings.TrimRight(ctx.GetText(), "\n")
+	// trim all trailing whitespace: the closing brace may be indented or preceded by a CR, and
+	// whitespace kept here would make the printed DSL change once more on the next round trip
+	l.currentCondition.Expression = strings.TrimRight(ctx.GetText(), " \t\r\n\f")
 }
 
 func (l *OpenFgaDslListener) ExitCondition(_ *parser.ConditionContext) {
